@@ -445,7 +445,7 @@ func judgeNearMiss(c *driver.Ctx, r *rand.Rand, lines [][]string, indent []int32
 	c.Eval(1)
 	if base {
 		if err != nil {
-			c.Violation("C14 reject grammatical-text: "+normMsg(errMsg(err)), fmt.Sprintf("the tokens of a rendered tree, joined by single blanks, are rejected: %v", err), detail(map[string]any{"error": err.Error()}))
+			c.Violation(rejectKey(err, toks), fmt.Sprintf("the tokens of a rendered tree, joined by single blanks, are rejected: %v", err), detail(map[string]any{"error": err.Error()}))
 			return false
 		}
 	} else {
